@@ -26,11 +26,19 @@ TRUSTED_BASE_COMMON = [
 ]
 
 
+MEM_LIMIT = int(os.environ.get('VERIF_MEM_LIMIT_GB', '16')) << 30
+
+
+def _limit_memory():
+    import resource
+    resource.setrlimit(resource.RLIMIT_AS, (MEM_LIMIT, MEM_LIMIT))
+
+
 def sh(cmd, timeout=None, cwd=None, env=None, inp=None):
     t0 = time.time()
     p = subprocess.run(cmd, shell=isinstance(cmd, str), cwd=cwd, env=env, input=inp,
                        stdout=subprocess.PIPE, stderr=subprocess.STDOUT, timeout=timeout,
-                       text=True)
+                       text=True, preexec_fn=_limit_memory)
     return p.returncode, p.stdout, time.time() - t0
 
 
@@ -275,7 +283,7 @@ def coq_eval(name, header, body_chunks, timeout=600, jobs=8):
         out = open(fn[:-2] + '.out', 'w')
         p = subprocess.Popen(['coqc', '-Q', '.', 'BV', '-w', '-notation-overridden',
                               os.path.relpath(fn, COQ)], cwd=COQ,
-                             stdout=out, stderr=subprocess.STDOUT, text=True)
+                             stdout=out, stderr=subprocess.STDOUT, text=True, preexec_fn=_limit_memory)
         p.outpath = fn[:-2] + '.out'
         out.close()
         return p
